@@ -181,6 +181,7 @@ def run(res):
                                "impl_trace": ob["steps"][i], "predicate": {"name": "Incr under read/write quorums", "verdict": m}, "seed": res.seed})
                 break
     res.coverage["incr_under_quorum_steps"] = nq
+    locker_part(res)
     if not proofs_ok and not res.violations:
         broken = [o for o in res.obligations if not o["ok"]]
         res.violation({"kind": "obligation-broken", "failed": [o["theorem"] for o in broken],
@@ -196,6 +197,118 @@ def run(res):
         "samples": [{"history": hists[0][2]}] if hists else [],
     })
     res.assumptions += ["IncrByFloat is exercised with integral amounts only (mixed with Incr/Decr on one key); non-integral amounts by the C15 grid (float text formatting is an oracle)"]
+
+
+_LOCKER_REPLAY = None
+LOCKER_HEADER = """From Coq Require Import List NArith ZArith Bool.
+Require Import Olric.Model.Locker Olric.Model.LockerRun.
+Import ListNotations.
+"""
+
+
+def locker_part(res):
+    """internal/locker (the per-key mutex of the atomic operations) against Model/Locker.v: the REAL Locker is driven by goroutines one
+    call at a time; after every call: which Lock calls have returned, which are blocked, which names its map holds"""
+    import json as _json
+    from vlib import cN, cnat, cbool, clist
+    n = 60 if res.tier == "quick" else 600
+    scs = []
+    for j in range(n):
+        rng = vlib.rng_for(res.seed, PID, "locker", j)
+        threads = rng.randrange(2, 6)
+        names = ["a", "b", "c"][:rng.randrange(1, 4)]
+        ops = []
+        for _ in range(rng.randrange(6, 16)):
+            if rng.random() < 0.55:
+                ops.append({"op": "lock", "t": rng.randrange(threads), "n": rng.choice(names)})
+            else:
+                ops.append({"op": "unlock", "n": rng.choice(names)})
+        ops += [{"op": "unlock", "n": x} for x in names * threads]      # drain: everybody gets the lock and releases it
+        scs.append({"id": j, "threads": threads, "ops": ops})
+    if _LOCKER_REPLAY:
+        scs = _LOCKER_REPLAY
+    outs = {}
+
+    def run_chunk(chunk):
+        p = vlib.harness(["locker"], input="".join(_json.dumps(s) + "\n" for s in chunk), timeout=600)
+        o = {}
+        for line in p.stdout.splitlines():
+            if line.startswith("{"):
+                r = _json.loads(line)
+                o[r["id"]] = r
+        if len(o) < len(chunk):
+            raise vlib.CheckError("locker harness failed rc=%d: %s" % (p.returncode, p.stderr[-1000:]))
+        return o
+    from concurrent.futures import ThreadPoolExecutor
+    with ThreadPoolExecutor(max_workers=8) as ex:
+        for o in ex.map(run_chunk, [scs[i::8] for i in range(8) if scs[i::8]]):
+            outs.update(o)
+    nm = {"a": 1, "b": 2, "c": 3}
+    cases = []
+    calls = blockedcalls = handovers = 0
+    bad = None
+    for sc in scs:
+        obs = outs[sc["id"]]["obs"]
+        items = []
+        inside = {}
+        for op, ob in zip(sc["ops"], obs):
+            if ob.get("skip"):
+                continue
+            calls += 1
+            # the property on the observations alone: never two holders of one name; the holder's Unlock succeeds; no call returns unasked
+            hs = {}
+            for t, x in ob["holders"]:
+                if x in hs and bad is None:
+                    bad = (sc, "threads %d and %d are both past Lock(%r)" % (hs[x], t, x))
+                hs[x] = t
+            if "extra_return" in ob and bad is None:
+                bad = (sc, "a second blocked Lock returned after one Unlock (thread %d)" % ob["extra_return"])
+            if op["op"] == "unlock" and ob.get("err") and bad is None:
+                bad = (sc, "the holder's Unlock(%r) returned an error" % op["n"])
+            if op["op"] == "lock" and not ob["ret"]:
+                inside[ob["t"]] = op["n"]
+            if op["op"] == "unlock" and ob.get("woken", -1) >= 0:
+                inside.pop(ob["woken"], None)
+            leaked = set(ob["names"]) - set(hs) - set(inside.values())
+            if leaked and bad is None:
+                bad = (sc, "the map keeps entries %s nobody holds or waits for" % sorted(leaked))
+            o_ = "(%s, %s, %s)" % (clist(cN(nm[x]) for x in sorted(ob["names"])),
+                                   clist("(%s, %s)" % (cnat(t), cN(nm[x])) for t, x in sorted(ob["holders"])),
+                                   clist(cnat(t) for t in sorted(ob["blocked"])))
+            if op["op"] == "lock":
+                if not ob["ret"]:
+                    blockedcalls += 1
+                items.append("(HLock %s %s %s, %s)" % (cnat(ob["t"]), cN(nm[op["n"]]), cbool(ob["ret"]), o_))
+            else:
+                if ob["woken"] >= 0:
+                    handovers += 1
+                items.append("(HUnlock %s %s %s %s, %s)" % (cnat(ob["t"]), cN(nm[op["n"]]), cbool(ob["err"]),
+                                                            "None" if ob["woken"] < 0 else "(Some %s)" % cnat(ob["woken"]), o_))
+        cases.append((sc, "(%s, %s)" % (cnat(sc["threads"]), clist(items))))
+    if bad:
+        res.violation({"kind": "impl-violates-property", "part": "locker", "scenario": bad[0], "impl_trace": outs[bad[0]["id"]]["obs"],
+                       "predicate": {"name": "per-key mutex: one holder per name, the holder's Unlock succeeds, no leaked entry", "verdict": bad[1]},
+                       "seed": res.seed})
+    shards = [cases[i:i + 40] for i in range(0, len(cases), 40)]
+    texts = [LOCKER_HEADER + "Definition cases : list lcase := [\n" + ";\n".join(t for _, t in sh) +
+             "\n].\nDefinition M := Eval vm_compute in mismatches cases 0.\nPrint M.\n" for sh in shards]
+    import re
+    mism = []
+    for sh, (rc, out, err, dt) in zip(shards, vlib.coq_eval_shards("c07locker", texts)):
+        if rc != 0 or "M =" not in out:
+            raise vlib.CheckError("coqc failed on generated locker cases: " + (err or out)[-1500:])
+        flat = " ".join(out.split("M =", 1)[1].rsplit(":", 1)[0].split())
+        for m in re.finditer(r"\((\d+)(?:%nat)?, (\d+)(?:%nat)?\)", flat):
+            mism.append((sh[int(m.group(1))][0], int(m.group(2))))
+    if mism and not bad:
+        sc, step = mism[0]
+        res.violation({"kind": "model-vs-impl", "part": "locker", "scenario": sc, "impl_trace": outs[sc["id"]]["obs"],
+                       "failed": "correspondence Model/Locker.v vs internal/locker: scenario %d, call #%d (counting the calls that were not skipped)" % (sc["id"], step),
+                       "seed": res.seed}, no_input=True)
+    res.coverage["locker"] = {"scenarios": len(scs), "calls": calls, "lock_calls_that_blocked": blockedcalls, "unlocks_that_woke_a_waiter": handovers,
+                              "model_vs_impl_mismatches": len(mism),
+                              "rule": "the real internal/locker, 2-5 goroutines, 1-3 names, 6-15 random Lock / Unlock calls one at a time then a drain; after every call "
+                                      "the returned and the blocked Lock calls and the names in the Locker's map (white-box) are compared with Model/Locker.v"}
 
 
 def replay(res, path):
@@ -214,6 +327,27 @@ def replay(res, path):
                 print(m)
                 print("VIOLATION property=%s replay=%s" % (res.pid, path))
                 return 1
+        return 0
+    if obj.get("part") == "locker":
+        ok, out = vlib.harness_build()
+        if not ok:
+            raise vlib.CheckError(out)
+        class _R:       # a one-scenario run of locker_part's predicate and model comparison
+            pass
+        import types
+        r2 = types.SimpleNamespace(seed=res.seed, tier="quick", coverage={}, violations=[], pid=res.pid)
+        r2.violation = lambda o, no_input=False: r2.violations.append(o)
+        _one = obj["scenario"]
+        global _LOCKER_REPLAY
+        _LOCKER_REPLAY = [dict(_one, id=0)]
+        try:
+            locker_part(r2)
+        finally:
+            _LOCKER_REPLAY = None
+        if r2.violations:
+            print(r2.violations[0].get("predicate", r2.violations[0].get("failed")))
+            print("VIOLATION property=%s replay=%s" % (res.pid, path))
+            return 1
         return 0
     sc = obj.get("scenario")
     if not sc:
